@@ -55,6 +55,7 @@ import (
 	"github.com/ethereum/go-ethereum/core/types/bal"
 	"github.com/ethereum/go-ethereum/ethdb"
 	"github.com/ethereum/go-ethereum/ethdb/memorydb"
+	"github.com/ethereum/go-ethereum/ethdb/pebble"
 	"github.com/ethereum/go-ethereum/internal/verifx/crashkv"
 	"github.com/ethereum/go-ethereum/internal/verifx/recfreezer"
 	"github.com/ethereum/go-ethereum/params"
@@ -291,16 +292,52 @@ func c25Addr(x uint64) common.Address { return common.BytesToAddress(c25Bytes(x|
 
 func u64p(v uint64) *uint64 { return &v }
 
+// c25T is what the oracle needs from the test handle (*rapid.T inside a rapid
+// property, *testing.T in the deterministic scenario).
+type c25T interface {
+	Fatalf(format string, args ...any)
+}
+
+// c25Src is the source of the generator's choices: rapid draws in the random
+// histories, a seeded PRNG for the bulk chain of the big-backlog scenario.
+type c25Src interface {
+	c25T
+	pick(lo, hi int, label string) int
+}
+
+type c25RapidSrc struct{ *rapid.T }
+
+func (s c25RapidSrc) pick(lo, hi int, label string) int {
+	return rapid.IntRange(lo, hi).Draw(s.T, label)
+}
+
+type c25PRNGSrc struct {
+	testing.TB
+	x uint64
+}
+
+func (s *c25PRNGSrc) next() uint64 {
+	s.x += 0x9e3779b97f4a7c15
+	z := s.x
+	z = (z ^ z>>30) * 0xbf58476d1ce4e5b9
+	z = (z ^ z>>27) * 0x94d049bb133111eb
+	return z ^ z>>31
+}
+
+func (s *c25PRNGSrc) pick(lo, hi int, label string) int {
+	return lo + int(s.next()%uint64(hi-lo+1))
+}
+
 // newTx draws one unsigned transaction with a unique nonce.
-func (m *c25Model) newTx(rt *rapid.T) *types.Transaction {
+func (m *c25Model) newTx(rt c25Src) *types.Transaction {
 	m.txSeq++
 	to := c25Addr(m.rnd(1))
 	var top *common.Address
-	if rapid.IntRange(0, 5).Draw(rt, "txCreate") != 0 {
+	if rt.pick(0, 5, "txCreate") != 0 {
 		top = &to
 	}
-	data := c25Bytes(m.rnd(2), rapid.IntRange(0, 40).Draw(rt, "txData"))
-	switch rapid.IntRange(0, 2).Draw(rt, "txType") {
+	data := c25Bytes(m.rnd(2), rt.pick(0, 40, "txData"))
+	switch rt.pick(0, 2, "txType") {
 	case 0:
 		return types.NewTx(&types.LegacyTx{Nonce: m.txSeq, GasPrice: big.NewInt(int64(1 + m.txSeq%7)), Gas: 21000 + m.txSeq, To: top, Value: big.NewInt(int64(m.txSeq)), Data: data})
 	case 1:
@@ -313,18 +350,18 @@ func (m *c25Model) newTx(rt *rapid.T) *types.Transaction {
 
 // newBlock draws a block on top of parent. share, if non-nil, is a sibling whose
 // transactions may be included as well (the same transaction on two forks).
-func (m *c25Model) newBlock(rt *rapid.T, parent *c25Block, share *c25Block) *c25Block {
+func (m *c25Model) newBlock(rt c25Src, parent *c25Block, share *c25Block) *c25Block {
 	num := uint64(0)
 	var parentHash common.Hash
 	if parent != nil {
 		num, parentHash = parent.num+1, parent.hash
 	}
-	shape := rapid.IntRange(0, 3).Draw(rt, "headerShape")
+	shape := rt.pick(0, 3, "headerShape")
 	h := &types.Header{
 		ParentHash: parentHash, UncleHash: types.EmptyUncleHash, Coinbase: c25Addr(m.rnd(4)), Root: c25Hash(m.rnd(5)),
 		TxHash: c25Hash(m.rnd(6)), ReceiptHash: c25Hash(m.rnd(7)), Difficulty: big.NewInt(int64(1 + num%3)), Number: new(big.Int).SetUint64(num),
 		GasLimit: 30_000_000, GasUsed: 21000 * (num % 5), Time: 1_700_000_000 + 12*num,
-		Extra: c25Bytes(m.rnd(8), rapid.IntRange(1, 24).Draw(rt, "extra")), MixDigest: c25Hash(m.rnd(9)),
+		Extra: c25Bytes(m.rnd(8), rt.pick(1, 24, "extra")), MixDigest: c25Hash(m.rnd(9)),
 	}
 	if shape >= 1 {
 		h.BaseFee = big.NewInt(int64(7 + num))
@@ -351,13 +388,13 @@ func (m *c25Model) newBlock(rt *rapid.T, parent *c25Block, share *c25Block) *c25
 		}
 	}
 	body := &types.Body{}
-	ntx := rapid.IntRange(0, 3).Draw(rt, "txs")
+	ntx := rt.pick(0, 3, "txs")
 	if num == 0 {
 		ntx = 0
 	}
 	for i := 0; i < ntx; i++ {
-		if share != nil && len(share.txs) > 0 && rapid.IntRange(0, 2).Draw(rt, "txShared") == 0 {
-			tx := share.txs[rapid.IntRange(0, len(share.txs)-1).Draw(rt, "txSharedIdx")]
+		if share != nil && len(share.txs) > 0 && rt.pick(0, 2, "txShared") == 0 {
+			tx := share.txs[rt.pick(0, len(share.txs)-1, "txSharedIdx")]
 			dup := false
 			for _, have := range body.Transactions {
 				dup = dup || have.Hash() == tx.Hash()
@@ -369,12 +406,12 @@ func (m *c25Model) newBlock(rt *rapid.T, parent *c25Block, share *c25Block) *c25
 		}
 		body.Transactions = append(body.Transactions, m.newTx(rt))
 	}
-	if shape == 0 && num > 1 && rapid.IntRange(0, 3).Draw(rt, "uncle") == 0 {
+	if shape == 0 && num > 1 && rt.pick(0, 3, "uncle") == 0 {
 		body.Uncles = []*types.Header{{ParentHash: c25Hash(m.rnd(16)), Difficulty: big.NewInt(2), Number: new(big.Int).SetUint64(num - 1), Extra: []byte{1}}}
 	}
 	if shape >= 2 {
 		body.Withdrawals = types.Withdrawals{}
-		if rapid.Bool().Draw(rt, "withdrawal") {
+		if rt.pick(0, 1, "withdrawal") == 1 {
 			body.Withdrawals = append(body.Withdrawals, &types.Withdrawal{Index: num, Validator: 3, Address: c25Addr(m.rnd(17)), Amount: 5})
 		}
 	}
@@ -382,8 +419,8 @@ func (m *c25Model) newBlock(rt *rapid.T, parent *c25Block, share *c25Block) *c25
 	var cum uint64
 	for i := range body.Transactions {
 		cum += 21000 + uint64(i)*100
-		r := &types.Receipt{Status: uint64(rapid.IntRange(0, 1).Draw(rt, "status")), CumulativeGasUsed: cum, Logs: []*types.Log{}}
-		for l := rapid.IntRange(0, 2).Draw(rt, "logs"); l > 0; l-- {
+		r := &types.Receipt{Status: uint64(rt.pick(0, 1, "status")), CumulativeGasUsed: cum, Logs: []*types.Log{}}
+		for l := rt.pick(0, 2, "logs"); l > 0; l-- {
 			lg := &types.Log{Address: c25Addr(m.rnd(18)), Topics: []common.Hash{}, Data: c25Bytes(m.rnd(19), l*3)}
 			for tp := 0; tp < l; tp++ {
 				lg.Topics = append(lg.Topics, c25Hash(m.rnd(20)))
@@ -396,10 +433,10 @@ func (m *c25Model) newBlock(rt *rapid.T, parent *c25Block, share *c25Block) *c25
 	b.block = types.NewBlockWithHeader(h).WithBody(*body)
 	b.hash = b.block.Hash()
 	var err error
-	if b.headerRLP, err = rlp.EncodeToBytes(b.block.Header()); err != nil {
+	if b.headerRLP, err = rlp.EncodeToBytes(h); err != nil {
 		rt.Fatalf("VERIF-HARNESS-BUG: header encoding: %v", err)
 	}
-	if b.bodyRLP, err = rlp.EncodeToBytes(b.block.Body()); err != nil {
+	if b.bodyRLP, err = rlp.EncodeToBytes(body); err != nil {
 		rt.Fatalf("VERIF-HARNESS-BUG: body encoding: %v", err)
 	}
 	sr := make([]*types.ReceiptForStorage, len(receipts))
@@ -559,7 +596,7 @@ func c25ReadView(db ethdb.Database, hash common.Hash, num uint64, txs []*types.T
 // c25CheckRanges compares ReadHeaderRange (canonical headers by number, descending)
 // with the canonical header encodings for the whole chain and for short ranges
 // around the frozen boundary. (One call allocates a 2 MB buffer, hence only a few.)
-func c25CheckRanges(rt *rapid.T, db ethdb.Database, m *c25Model, boundary uint64, ctx string) {
+func c25CheckRanges(rt c25T, db ethdb.Database, m *c25Model, boundary uint64, ctx string) {
 	type rng struct{ from, count uint64 }
 	head := m.head()
 	rs := []rng{{head, head + 1}}
@@ -614,7 +651,7 @@ type c25Run struct {
 	m    *c25Model
 	desc []string // history description
 
-	st   *vs.S
+	st *vs.S
 
 	crossing bool // some cycle's boundary cut through a side branch
 	stats    c25Stats
@@ -657,14 +694,14 @@ func (r *c25Run) refreshViews(where string) {
 }
 
 // checkCanonical compares every canonical block with its recorded view.
-func c25CheckCanonical(rt *rapid.T, db ethdb.Database, m *c25Model, ctx string) {
+func c25CheckCanonical(rt c25T, db ethdb.Database, m *c25Model, ctx string) {
 	if fz, err := db.Ancients(); err == nil {
 		c25CheckRanges(rt, db, m, fz, ctx)
 	}
 	c25CheckBlocks(rt, db, m, ctx)
 }
 
-func c25CheckBlocks(rt *rapid.T, db ethdb.Database, m *c25Model, ctx string) {
+func c25CheckBlocks(rt c25T, db ethdb.Database, m *c25Model, ctx string) {
 	for _, b := range m.canon {
 		v := c25ReadView(db, b.hash, b.num, b.txs, true)
 		if d := v.diff(m.views[b.hash]); d != "" {
@@ -675,7 +712,7 @@ func c25CheckBlocks(rt *rapid.T, db ethdb.Database, m *c25Model, ctx string) {
 
 // c25SidePresent reads a side block: 1 present and equal to its recorded view,
 // 0 absent (reads like an unknown hash at that height); anything else fails.
-func c25SidePresent(rt *rapid.T, db ethdb.Database, m *c25Model, s *c25Block, ctx string) bool {
+func c25SidePresent(rt c25T, db ethdb.Database, m *c25Model, s *c25Block, ctx string) bool {
 	v := c25ReadView(db, s.hash, s.num, nil, false)
 	if v.diff(m.views[s.hash]) == "" {
 		return true
@@ -688,7 +725,7 @@ func c25SidePresent(rt *rapid.T, db ethdb.Database, m *c25Model, s *c25Block, ct
 }
 
 // c25CheckFreezer compares the freezer tables with the canonical encodings.
-func c25CheckFreezer(rt *rapid.T, db ethdb.Database, m *c25Model, want uint64, ctx string) {
+func c25CheckFreezer(rt c25T, db ethdb.Database, m *c25Model, want uint64, ctx string) {
 	got, err := db.Ancients()
 	if err != nil {
 		rt.Fatalf("%s: Ancients: %v", ctx, err)
@@ -732,7 +769,7 @@ func (r *c25Run) extend(n int) {
 		if len(m.canon) > 0 {
 			parent = m.canon[len(m.canon)-1]
 		}
-		b := m.newBlock(r.rt, parent, nil)
+		b := m.newBlock(c25RapidSrc{r.rt}, parent, nil)
 		m.canon = append(m.canon, b)
 		c25WriteBlock(batch, b)
 		c25WriteCanon(batch, b)
@@ -748,7 +785,7 @@ func (r *c25Run) extend(n int) {
 	}
 }
 
-func c25Must(rt *rapid.T, err error) {
+func c25Must(rt c25T, err error) {
 	if err != nil {
 		rt.Fatalf("VERIF-HARNESS-BUG: database write failed: %v", err)
 	}
@@ -785,7 +822,7 @@ func (r *c25Run) addSide() {
 		if parent.num+1 <= m.head() {
 			share = m.canon[parent.num+1]
 		}
-		b := m.newBlock(rt, parent, share)
+		b := m.newBlock(c25RapidSrc{rt}, parent, share)
 		c25WriteBlock(batch, b)
 		parent = b
 		made++
@@ -1431,6 +1468,379 @@ func c25Property(rt *rapid.T, st *vs.S) {
 	c.Sample(r.crossing, func() any {
 		return map[string]any{"history": r.desc, "head": r.m.head(), "frozen": r.m.frozen, "images": r.stats.images,
 			"side_blocks": r.stats.sideBlocks, "removed_below": r.stats.removedBelow, "removed_dangling": r.stats.removedDangling, "kept": r.stats.kept}
+	})
+}
+
+// ---------------------------------------------------------------- big backlog: several batches inside one cycle
+
+// c25CheckLight compares the raw accessors of every canonical block with the model's
+// encodings (the full accessor view is kept for a sample of heights only).
+func c25CheckLight(t c25T, db ethdb.Database, blocks []*c25Block, ctx string) {
+	for _, b := range blocks {
+		if got := ReadCanonicalHash(db, b.num); got != b.hash {
+			t.Fatalf("%s: ReadCanonicalHash(%d) = %x, canonical block is %x", ctx, b.num, got[:4], b.hash[:4])
+		}
+		for _, f := range []struct {
+			name      string
+			got, want []byte
+		}{
+			{"ReadHeaderRLP", ReadHeaderRLP(db, b.hash, b.num), b.headerRLP},
+			{"ReadBodyRLP", ReadBodyRLP(db, b.hash, b.num), b.bodyRLP},
+			{"ReadReceiptsRLP", ReadReceiptsRLP(db, b.hash, b.num), b.receiptsRLP},
+			{"ReadAccessListRLP", ReadAccessListRLP(db, b.hash, b.num), b.balRLP},
+		} {
+			if !bytes.Equal(f.got, f.want) {
+				t.Fatalf("%s: canonical block #%d %x: %s returned %s, the block was written with %s", ctx, b.num, b.hash[:4], f.name, c25Trunc(f.got), c25Trunc(f.want))
+			}
+		}
+		if n, ok := ReadHeaderNumber(db, b.hash); !ok || n != b.num {
+			t.Fatalf("%s: canonical block #%d %x: ReadHeaderNumber returned (%d,%v)", ctx, b.num, b.hash[:4], n, ok)
+		}
+	}
+}
+
+// c25CheckRangeAt compares ReadHeaderRange(from, count) with the canonical headers.
+func c25CheckRangeAt(t c25T, db ethdb.Database, m *c25Model, from, count uint64, ctx string) {
+	from = min(from, m.head())
+	got := ReadHeaderRange(db, from, count)
+	if want := min(count, from+1); uint64(len(got)) != want {
+		t.Fatalf("%s: ReadHeaderRange(%d,%d) returned %d headers, want %d", ctx, from, count, len(got), want)
+	}
+	for i := range got {
+		if b := m.canon[from-uint64(i)]; !bytes.Equal(got[i], b.headerRLP) {
+			t.Fatalf("%s: ReadHeaderRange(%d,%d)[%d] = %s, canonical header #%d is %s", ctx, from, count, i, c25Trunc(got[i]), b.num, c25Trunc(b.headerRLP))
+		}
+	}
+}
+
+type c25Big struct {
+	t      *testing.T
+	src    *c25PRNGSrc
+	db     *c25DB
+	m      *c25Model
+	desc   []string
+	sample map[uint64]bool // canonical heights with a full accessor view
+	head   uint64          // planned head of the current cycle
+}
+
+func (g *c25Big) note(format string, a ...any) { g.desc = append(g.desc, fmt.Sprintf(format, a...)) }
+
+// mark adds heights to the sample. The sample of a cycle is fixed before its blocks are
+// generated: blocks outside it keep their encodings only (see extend).
+func (g *c25Big) mark(lo, hi uint64) {
+	for n := lo; n <= hi && n <= g.head; n++ {
+		if n < uint64(len(g.m.canon)) && !g.sample[n] {
+			continue // generated by an earlier cycle without a full view
+		}
+		g.sample[n] = true
+	}
+}
+
+func (g *c25Big) around(n, d uint64) { g.mark(n-min(n, d), n+d) }
+
+func (g *c25Big) sampled() []uint64 {
+	out := make([]uint64, 0, len(g.sample))
+	for n := range g.sample {
+		out = append(out, n)
+	}
+	sort.Slice(out, func(i, j int) bool { return out[i] < out[j] })
+	return out
+}
+
+// extend appends canonical blocks up to the planned head. Blocks outside the sample
+// are reduced to hash and encodings once written (the raw accessors and the freezer
+// tables are compared for every height, the full accessor view for the sample).
+func (g *c25Big) extend() {
+	m := g.m
+	batch := g.db.NewBatch()
+	for len(m.canon) == 0 || m.head() < g.head {
+		var parent *c25Block
+		if len(m.canon) > 0 {
+			parent = m.canon[len(m.canon)-1]
+		}
+		b := m.newBlock(g.src, parent, nil)
+		m.canon = append(m.canon, b)
+		c25WriteBlock(batch, b)
+		c25WriteCanon(batch, b)
+		b.block, b.receipts = nil, nil
+		if !g.sample[b.num] {
+			b.txs = nil
+		}
+		if batch.ValueSize() > ethdb.IdealBatchSize {
+			c25Must(g.t, batch.Write())
+			batch.Reset()
+		}
+	}
+	c25WriteHead(batch, m.canon[m.head()])
+	c25Must(g.t, batch.Write())
+	g.note("extend->head #%d", m.head())
+}
+
+// c25BigFork is one planned side branch: length blocks on top of the canonical block
+// at height from, or (onPrev) one block on top of the parent of the previous branch's tip.
+type c25BigFork struct {
+	from   uint64
+	length int
+	onPrev bool
+	cross  uint64 // batch boundary the branch is meant to cross (0: none)
+}
+
+// side writes a side branch of the given length on top of parent (canonical or side).
+func (g *c25Big) side(parent *c25Block, length int) *c25Block {
+	m := g.m
+	batch := g.db.NewBatch()
+	from := parent.num
+	for i := 0; i < length && parent.num+1 <= m.head()+2; i++ {
+		var share *c25Block
+		if parent.num+1 <= m.head() {
+			share = m.canon[parent.num+1]
+		}
+		b := m.newBlock(g.src, parent, share)
+		c25WriteBlock(batch, b)
+		parent = b
+	}
+	c25Must(g.t, batch.Write())
+	g.note("side(#%d..#%d)", from+1, parent.num)
+	return parent
+}
+
+// refresh records the full accessor view of the sampled canonical heights and of all
+// live side blocks; a view recorded earlier must not have changed.
+func (g *c25Big) refresh(where string) {
+	m := g.m
+	check := func(b *c25Block, canonical bool) {
+		v := c25ReadView(g.db, b.hash, b.num, b.txs, canonical)
+		if old, ok := m.views[b.hash]; ok {
+			if d := v.diff(old); d != "" {
+				g.t.Fatalf("%s: block #%d %x (canonical=%v): %s [history %v]", where, b.num, b.hash[:4], canonical, d, g.desc)
+			}
+			return
+		}
+		if !bytes.Equal(v.fields[0].val, b.headerRLP) {
+			g.t.Fatalf("VERIF-HARNESS-BUG: %s: fresh block #%d does not read back its header", where, b.num)
+		}
+		m.views[b.hash] = v
+	}
+	for _, n := range g.sampled() {
+		check(m.canon[n], true)
+	}
+	for _, s := range m.sides() {
+		check(s, false)
+	}
+}
+
+func (g *c25Big) checkSampled(ctx string) {
+	m := g.m
+	for _, n := range g.sampled() {
+		b := m.canon[n]
+		v := c25ReadView(g.db, b.hash, b.num, b.txs, true)
+		if d := v.diff(m.views[b.hash]); d != "" {
+			g.t.Fatalf("%s: canonical block #%d %x: %s", ctx, b.num, b.hash[:4], d)
+		}
+	}
+}
+
+// cycle builds a freezable backlog of the given size on top of what is frozen already
+// (side branches around every batch boundary of the cycle, around the finalized block
+// and deep inside the first batch), finalizes, runs Freeze until the freezer stops
+// growing and evaluates the oracle. It returns the number of capped batches.
+func (g *c25Big) cycle(idx int, backlog uint64) (capped int, crossing bool) {
+	t, m, src := g.t, g.m, g.src
+	f0 := m.frozen
+	final := f0 + backlog - 1
+	g.head = final + 6 + uint64(src.pick(0, 10, "above"))
+	// where the batches of this cycle start
+	var bounds []uint64
+	for b := f0 + freezerBatchLimit; b <= final; b += freezerBatchLimit {
+		bounds = append(bounds, b)
+	}
+	capped = len(bounds)
+	lo := m.lowFork()
+	clamp := func(n uint64) uint64 { return min(max(n, lo), g.head) }
+	var plan []c25BigFork
+	for _, b := range bounds {
+		// a branch crossing the batch boundary, a child of one of its blocks, a competitor of
+		// the last block of the batch and a competitor of the first block of the next batch
+		plan = append(plan,
+			c25BigFork{from: clamp(b - uint64(src.pick(2, 5, "crossFrom"))), length: 6 + src.pick(0, 3, "crossLen"), cross: b},
+			c25BigFork{onPrev: true},
+			c25BigFork{from: clamp(b - 2), length: 1},
+			c25BigFork{from: clamp(b - 1), length: 1 + src.pick(0, 1, "firstLen")})
+	}
+	if backlog > 200 {
+		plan = append(plan, c25BigFork{from: clamp(f0 + uint64(src.pick(1, int(min(backlog, freezerBatchLimit))-100, "deep"))), length: 1 + src.pick(0, 3, "deepLen")})
+	}
+	plan = append(plan,
+		c25BigFork{from: clamp(final - uint64(src.pick(1, 3, "finalFrom"))), length: 5}, // reaches above the finalized block: dangling part
+		c25BigFork{from: clamp(final), length: 1 + src.pick(0, 1, "keptLen")},           // descends from the finalized block: stays
+		c25BigFork{from: clamp(final + 1), length: 1})
+	// sample: multiples of the batch limit, the batch boundaries, the old and new frozen
+	// boundary, everything above, the heights of the side branches, scattered heights
+	for n := uint64(0); n <= g.head+3; n += freezerBatchLimit {
+		g.around(n, 3)
+	}
+	for _, b := range bounds {
+		g.around(b, 3)
+	}
+	g.around(f0, 3)
+	g.mark(final-min(final, 3), g.head)
+	for _, f := range plan {
+		if !f.onPrev {
+			g.mark(f.from-min(f.from, 1), f.from+uint64(f.length)+1)
+		}
+	}
+	for n := f0; n <= g.head; n += 499 {
+		g.mark(n, n)
+	}
+	for i := 0; i < 150; i++ {
+		n := f0 + src.next()%(g.head-f0+1)
+		g.mark(n, n)
+	}
+	g.extend()
+	var prev *c25Block
+	for _, f := range plan {
+		if f.onPrev {
+			if prev != nil && prev.parent != nil && !m.isCanon(prev.parent) {
+				g.side(prev.parent, 1)
+			}
+			continue
+		}
+		prev = g.side(m.canon[f.from], f.length)
+		if a := c25AncestorAt(prev, f.cross-1); f.cross != 0 && prev.num >= f.cross && a != nil && !m.isCanon(a) {
+			crossing = true
+		}
+	}
+	where := fmt.Sprintf("before big cycle %d", idx)
+	g.refresh(where)
+	// the model's encodings are what the database holds (all heights once blocks are frozen,
+	// the sampled ones while everything is still where the writers put it)
+	if f0 > 0 {
+		c25CheckLight(t, g.db, m.canon, where)
+	} else {
+		var blocks []*c25Block
+		for _, n := range g.sampled() {
+			blocks = append(blocks, m.canon[n])
+		}
+		c25CheckLight(t, g.db, blocks, "VERIF-HARNESS-BUG: "+where)
+	}
+
+	m.hasFinal, m.final = true, final
+	WriteFinalizedBlockHash(g.db, m.canon[final].hash)
+	g.note("finalized #%d (backlog %d = %d capped batches + %d)", final, backlog, capped, backlog-uint64(capped)*freezerBatchLimit)
+	c25Must(t, g.db.SyncKeyValue())
+	sidesPre := m.sides()
+	// one trigger runs as many batches as needed; further triggers must not change anything
+	for i := 0; i < capped+3; i++ {
+		before, _ := g.db.Ancients()
+		if err := g.db.freeze(); err != nil {
+			t.Fatalf("Freeze failed: %v", err)
+		}
+		if got, _ := g.db.Ancients(); got == final+1 || got == before {
+			break
+		}
+	}
+	m.frozen = final + 1
+	removed := c25Removal(m, sidesPre, f0, final+1)
+	ctx := fmt.Sprintf("after big freeze cycle %d (Ancients %d->%d, batch limit %d) [history %v]", idx, f0, final+1, uint64(freezerBatchLimit), g.desc)
+	g.checkSampled(ctx)
+	c25CheckLight(t, g.db, m.canon, ctx)
+	c25CheckFreezer(t, g.db, m, final+1, ctx)
+	for _, b := range append(bounds, final+1) {
+		c25CheckRangeAt(t, g.db, m, b+2, 6, ctx)
+	}
+	for _, s := range sidesPre {
+		present := c25SidePresent(t, g.db, m, s, ctx)
+		switch {
+		case removed[s] && present:
+			t.Fatalf("%s: side block #%d %x is still in the database (boundary %d)", ctx, s.num, s.hash[:4], final+1)
+		case !removed[s] && !present:
+			t.Fatalf("%s: side block #%d %x descends from the canonical chain at or above the boundary but was removed", ctx, s.num, s.hash[:4])
+		}
+	}
+	for n := uint64(1); n <= final; n++ {
+		for _, h := range ReadAllHashes(g.db, n) {
+			if h != m.canon[n].hash {
+				t.Fatalf("%s: ReadAllHashes(%d) still lists the non-canonical block %x", ctx, n, h[:4])
+			}
+		}
+	}
+	for s := range removed {
+		s.gone = true
+		delete(m.views, s.hash)
+	}
+	return capped, crossing
+}
+
+// TestVerifC25BigBacklog: one deterministic history whose freezable backlog exceeds
+// freezerBatchLimit, so that one freeze cycle runs several batches (the first ones
+// capped). The key-value store is a pebble database on the tmpfs directory: the
+// cleanup loop opens one iterator per height, which the map-backed memory database
+// answers by scanning all keys. No crash images here (TestVerifC25Crash has them).
+func TestVerifC25BigBacklog(t *testing.T) {
+	vs.OnlyShard0(t)
+	st := vs.New("C25", t)
+	c25SetupTemp(t)
+	root, err := os.MkdirTemp(c25TempRoot, "c25big")
+	if err != nil {
+		t.Fatalf("VERIF-HARNESS-BUG: mkdir: %v", err)
+	}
+	defer os.RemoveAll(root)
+	kv, err := pebble.New(root+"/kv", 16, 16, "", false)
+	if err != nil {
+		t.Fatalf("VERIF-HARNESS-BUG: pebble: %v", err)
+	}
+	src := &c25PRNGSrc{TB: t, x: vs.Seed() * 0x2545f4914f6cdd1d}
+	g := &c25Big{t: t, src: src, sample: map[uint64]bool{}, m: &c25Model{views: map[common.Hash]*c25View{}, salt: src.next()}}
+	if g.db, err = c25Open(kv, root+"/ancient"); err != nil {
+		t.Fatalf("opening an empty database failed: %v", err)
+	}
+	closed := false
+	defer func() {
+		if !closed {
+			g.db.close()
+		}
+	}()
+	// backlogs: more than one batch; thorough adds exactly one batch, one block more
+	// than a batch on top of a non-aligned boundary, and more than two batches
+	backlogs := []uint64{freezerBatchLimit + 20 + uint64(src.pick(0, 130, "extra"))}
+	if vs.Thorough() {
+		backlogs = append(backlogs, freezerBatchLimit, freezerBatchLimit+1, 2*freezerBatchLimit+20+uint64(src.pick(0, 130, "extra")))
+	}
+	c := st.Case()
+	capped, crossing := 0, false
+	for i, bl := range backlogs {
+		n, x := g.cycle(i, bl)
+		capped += n
+		crossing = crossing || x
+		c.Classf("big:cycle-with-%d-capped-batches", n)
+	}
+	// clean close and reopen
+	closed = true
+	if err := g.db.close(); err != nil {
+		t.Fatalf("close failed: %v [history %v]", err, g.desc)
+	}
+	kv, err = pebble.New(root+"/kv", 16, 16, "", false)
+	if err != nil {
+		t.Fatalf("VERIF-HARNESS-BUG: pebble: %v", err)
+	}
+	if g.db, err = c25Open(kv, root+"/ancient"); err != nil {
+		t.Fatalf("reopening the cleanly closed database failed: %v [history %v]", err, g.desc)
+	}
+	ctx := fmt.Sprintf("after clean close and reopen [history %v]", g.desc)
+	g.checkSampled(ctx)
+	if vs.Thorough() {
+		c25CheckLight(t, g.db, g.m.canon, ctx)
+	}
+	c25CheckFreezer(t, g.db, g.m, g.m.frozen, ctx)
+	if err := g.db.close(); err != nil {
+		t.Fatalf("close failed: %v", err)
+	}
+	nt := capped > 0 && crossing
+	c.NonTrivial(nt, fmt.Sprintf("big|%x|%v", g.m.canon[g.m.head()].hash, backlogs))
+	c.Class("big:backlog-exceeds-batch-limit")
+	c.Sample(nt, func() any {
+		return map[string]any{"history": g.desc, "head": g.m.head(), "frozen": g.m.frozen, "backlogs": backlogs, "capped_batches": capped,
+			"sampled_heights_with_full_view": len(g.sample), "blocks": len(g.m.blocks)}
 	})
 }
 
